@@ -24,9 +24,9 @@ func init() {
 	register(&Check{
 		Meta: report.Meta{
 			Property: "C09",
-			Rule: "D: every program of <=2 (quick) / 3 (thorough) statements over an alphabet of statements using dice / random / random_range in lines, sets, option conditions, if conditions, jump expressions and a drawing loop, x seeds (\"0\", \"00\", every one-character seed, a list of two-character, long and overflow-length seeds), all choice paths; " +
+			Rule: "D: every program of <=2 (quick) / 3 (thorough) statements over an alphabet of statements using dice / random / random_range in lines, sets, option conditions, if conditions, jump expressions, a drawing loop and a marked-up line with replacement markers in open and self-closing form, x seeds (\"0\", \"00\", every one-character seed, a list of two-character, long and overflow-length seeds), all choice paths; " +
 				"an execution of a case = the run from the start plus the run of the same dialogue opened from a snapshot the host built itself (several variables, one entry holding no value, restored after one step); each case is executed once as baseline and again after every history of <=2 unrelated activities from {another runner with the same seed drawing numbers, a runner with another seed, draws from and re-seeding of the global math/rand source, a failed load, the case itself}; complete observation trees, errors and final variable contents must be identical; " +
-				"P: the digests of all cases are recomputed in 3 fresh child processes; R: for every seed incl. the empty one, dice(n), random_range(a,b) (incl. spans beyond 2^31) and random() drawn 50 times each and checked for integrality and range; " +
+				"P: the digests of all cases are recomputed in 3 fresh child processes (two of which first run unrelated activity of their own); R: for every seed incl. the empty one, dice(n), random_range(a,b) (incl. spans beyond 2^31) and random() drawn 50 times each and checked for integrality and range; " +
 				"a case is one (program, seed, history); non-trivial = the program draws at least one random number (always)",
 			StatesMean:  "distinct (program, seed, history) executions compared with their baseline; transitions = real Next calls",
 			Assumptions: []string{"3 fresh child processes stand for 'different processes'", "seeds outside the listed alphabet are not explored"},
@@ -66,6 +66,13 @@ func c09Statements() []func(i int) []*yc.Stmt {
 		func(i int) []*yc.Stmt {
 			v := fmt.Sprintf("y%d", i)
 			return []*yc.Stmt{yc.Set(v, "=", yc.EBinary("*", yc.ECallOf("random"), yc.ECallOf("random_range", yc.ENumber(2000000000), yc.ENumber(5000000000))))}
+		},
+		func(i int) []*yc.Stmt {
+			// marked-up lines with a replacement marker in open form (another kind at odd positions), fed by a random draw
+			if i%2 == 0 {
+				return []*yc.Stmt{yc.LineOf(&yc.LineSpec{Parts: []yc.Part{tx("m [select value="), ex(yc.ECallOf("dice", yc.ENumber(2))), tx(` 1="low" 2="high"]x[/select] [plural value=`), ex(yc.ECallOf("dice", yc.ENumber(3))), tx(` one="% a" other="% b" /]`)}})}
+			}
+			return []*yc.Stmt{yc.LineOf(&yc.LineSpec{Parts: []yc.Part{tx("m [ordinal value="), ex(yc.ECallOf("dice", yc.ENumber(4))), tx(` one="%st" two="%nd" few="%rd" other="%th"][/ordinal]`)}})}
 		},
 	}
 }
@@ -140,7 +147,7 @@ func c09Exec(srcs []string, seed string) string {
 	return tracesString(fr) + "-- opened from a host-built snapshot --\n" + tracesString(fr2)
 }
 
-var c09OtherSrc = []string{"title: X\n---\n{dice(6)} {dice(6)}\n{random()}\n{random_range(1,100)}\n===\n"}
+var c09OtherSrc = []string{"title: X\n---\n{dice(6)} {dice(6)}\n[nomarkup][b]raw[/b][/nomarkup] {random()}\n{random_range(1,100)} [b]x[/b]\n===\n"}
 
 func c09Activity(k int, srcs []string, seed string) string {
 	switch k {
@@ -194,7 +201,15 @@ func runC09(ctx *report.Ctx) {
 	}
 
 	if child {
-		// digest mode: every case, baseline only, printed for the parent to compare
+		// digest mode: every case, baseline only, printed for the parent to compare. "Whatever ran before": the second
+		// and third child first run unrelated activity of their own (another runner showing other kinds of lines; failed loads)
+		switch os.Getenv("VERIF_C09_CHILD") {
+		case "2":
+			c09Activity(0, nil, "abc")
+		case "3":
+			c09Activity(3, nil, "abc")
+			c09Activity(1, nil, "abc")
+		}
 		w := bufio.NewWriter(os.Stdout)
 		explore.Run(explore.Options{Budget: -1, ShardIndex: ctx.ShardIndex, ShardCount: ctx.ShardCount}, func(c *explore.Chooser) {
 			p, seed := gen(c)
@@ -260,7 +275,7 @@ func runC09(ctx *report.Ctx) {
 		for ch := 0; ch < nChildren; ch++ {
 			// a fresh child process recomputes the baseline digest of every case of this shard
 			cmd := exec.Command(self, "C09", ctx.EffectiveTier(), "--worker", fmt.Sprintf("%d/%d", ctx.ShardIndex, ctx.ShardCount))
-			cmd.Env = append(os.Environ(), "VERIF_C09_CHILD=1", "VERIF_NO_QUICK_PASS=1") // a child recomputes exactly the pass of its parent
+			cmd.Env = append(os.Environ(), fmt.Sprintf("VERIF_C09_CHILD=%d", ch+1), "VERIF_NO_QUICK_PASS=1") // a child recomputes exactly the pass of its parent
 			var out bytes.Buffer
 			cmd.Stdout = &out
 			stop := make(chan struct{})
